@@ -13,6 +13,7 @@ import (
 	"context"
 	"errors"
 	"fmt"
+	"io"
 
 	"github.com/Breeze0806/mysql"
 )
@@ -381,6 +382,12 @@ func VH_C05_Stream(cause, npk, ahead, hmode int) {
 	inHandler := false
 	streamReturned := false
 	delivered := 0
+	// what the handler fails with is the application's business: a value of its own, or one that
+	// happens to be a well-known sentinel (io.EOF from its own sink, context.Canceled from its own work)
+	herr := errHandler
+	if cause == scHandler || cause == scHandlerAndEOF {
+		herr = []error{errHandler, io.EOF, context.Canceled}[vhChoose(3)]
+	}
 	handler := func(t *Transaction) error {
 		vhAssert(vhThreadID() == caller, "the handler is only called from within Stream (caller's goroutine)")
 		vhAssert(!streamReturned, "the handler is never called after Stream has returned")
@@ -396,7 +403,7 @@ func VH_C05_Stream(cause, npk, ahead, hmode int) {
 		delivered++
 		inHandler = false
 		if (cause == scHandler || cause == scHandlerAndCancel || cause == scHandlerAndLost || cause == scHandlerAndEOF) && delivered == 1 {
-			return errHandler
+			return herr
 		}
 		return nil
 	}
